@@ -22,9 +22,11 @@ def typed_reply(ip, sender, req):
     """well-typed reply the actor would eventually send"""
     ctx = ip.ctx
     p = ip.path
-    txs = find_values(req, OneshotTx)
-    if not txs:
+    from framework import responder_of
+    tx0 = responder_of(req)
+    if tx0 is None:
         return
+    txs = [tx0]
     replies = getattr(p, 'replies', {})
     ev = ip.src.enum_variants(req.name)
     variant = ev[req.discr][0]
